@@ -272,6 +272,9 @@ func (p *Packet) SetPayload(data []byte) (int, error) {
 	if freeSpace > len(data) {
 		p.SetAdaptationFieldControl(PayloadAndAdaptationFieldFlag)
 		af, _ := p.AdaptationField()
+		if af.Length() == 0 {
+			af[5] = 0x00 // a zero-length field had no flags byte; it gets one without flags
+		}
 
 		af.setLength(PacketSize - (len(data) + 4 + 1)) // header length + adaptation field length
 		af.stuffAF()
